@@ -81,7 +81,9 @@ type c08FlapPlan struct {
 }
 
 type c08Plan struct {
-	Flaps     []c08FlapPlan
+	// Slots: max_accepted_htlcs of the channel (0 = the fixture's 50).
+	SlotsAB, SlotsBC int
+	Flaps            []c08FlapPlan
 	Seed      [32]byte
 	SideSat   int64
 	Pays      []c08PayPlan
@@ -93,8 +95,8 @@ type c08Plan struct {
 
 func (p *c08Plan) String() string {
 	var b strings.Builder
-	fmt.Fprintf(&b, "side=%dsat restarts=%d at=%v burst=%v\n", p.SideSat,
-		p.Restarts, p.RestartAt, p.Burst)
+	fmt.Fprintf(&b, "side=%dsat restarts=%d at=%v burst=%v slots=%d/%d\n",
+		p.SideSat, p.Restarts, p.RestartAt, p.Burst, p.SlotsAB, p.SlotsBC)
 	for i, x := range p.Pays {
 		fmt.Fprintf(&b, "  pay%d dir=%d %s amt=%d kind=%s feeDelta=%d "+
 			"cltvDefect=%d launch=(%d,%d) resolve=(%d,%d) early=%v\n",
@@ -174,9 +176,31 @@ func c08DrawPlan(t *rapid.T) *c08Plan {
 	burst := rapid.IntRange(0, 3).Draw(t, "burst") == 0
 	burstDir := rapid.IntRange(0, 1).Draw(t, "burstDir")
 
+	// A fifth of the cases make the forwarder's OUTGOING link refuse adds
+	// the switch has already accepted: the outgoing channel has 1-2 HTLC
+	// slots, they are taken by held payments, and more payments arrive in
+	// the same batch. The refusal (mailbox FailAdd) is committed upstream
+	// and then the incoming link is restarted at least once.
+	slots := rapid.IntRange(0, 4).Draw(t, "slots") == 0
+	slotDir := rapid.IntRange(0, 1).Draw(t, "slotDir")
+	slotN := rapid.IntRange(1, 2).Draw(t, "slotN")
+	if slots {
+		burst = false
+		if slotDir == 0 {
+			p.SlotsBC = slotN
+		} else {
+			p.SlotsAB = slotN
+		}
+	}
+
 	p.Restarts = rapid.SampledFrom([]int{0, 1, 1, 1, 1, 1, 1, 2, 2, 2}).Draw(
 		t, "restarts",
 	)
+	if slots {
+		p.Restarts = rapid.SampledFrom([]int{1, 2, 2}).Draw(
+			t, "slotRestarts",
+		)
+	}
 	if burst {
 		p.Restarts = 2
 		p.Burst = true
@@ -194,6 +218,9 @@ func c08DrawPlan(t *rapid.T) *c08Plan {
 	)
 	if burst && nPay < 3 {
 		nPay = 3
+	}
+	if slots && nPay < slotN+2 {
+		nPay = slotN + 2
 	}
 	for i := 0; i < nPay; i++ {
 		var x c08PayPlan
@@ -232,6 +259,23 @@ func c08DrawPlan(t *rapid.T) *c08Plan {
 			0, 5, 10, 20, 40,
 		}).Draw(t, l+"resAt")
 		x.CancelEarly = rapid.IntRange(0, 4).Draw(t, l+"early") == 0
+		if slots && i < slotN+2 {
+			// slot holders first, then the adds that find no slot;
+			// all of them reach the forwarder in one batch and are
+			// acceptable to the switch.
+			x.Dir, x.Phase, x.At = slotDir, 0, 0
+			x.Class, x.Amt = "mid", lnwire.MilliSatoshi(6_000_000+i)
+			x.FeeDelta, x.CltvDefect = 0, 0
+			if i < slotN {
+				if x.Kind != c08KindHoldCancel {
+					x.Kind = c08KindHoldSettle
+				}
+				x.ResPhase = p.Restarts
+				x.CancelEarly = false
+			} else {
+				x.Kind = c08KindValid
+			}
+		}
 		if burst && i < 3 {
 			x.Dir, x.Phase, x.At = burstDir, 0, 0
 			if x.Class == "tiny" || x.Class == "over" {
@@ -367,7 +411,8 @@ type c08Run struct {
 	tap  *c08Tap
 	n    *threeHopNetwork
 
-	regs   [3]*mockInvoiceRegistry
+	notifier *c08Notifier
+	regs     [3]*mockInvoiceRegistry
 	caches [3]*mockPreimageCache
 
 	pays []*c08Pay
@@ -444,6 +489,7 @@ func (r *c08Run) startNetwork(chans [4]*lnwallet.LightningChannel) bool {
 				s.pCache = r.caches[i]
 			}
 		}
+		bob.htlcSwitch.cfg.HtlcNotifier = r.notifier
 		alice.intersect(r.tap.interceptor("alice"))
 		bob.intersect(r.tap.interceptor("bob"))
 		carol.intersect(r.tap.interceptor("carol"))
@@ -1779,7 +1825,14 @@ func c08RunCase(t *testing.T, plan *c08Plan) *c08Result {
 		dustB:          800,
 		fundSeed:       plan.Seed,
 		poolWorkers:    2,
-		maxAcceptedAdd: maxInflightHtlcs,
+		maxAcceptedAB:  maxInflightHtlcs,
+		maxAcceptedBC:  maxInflightHtlcs,
+	}
+	if plan.SlotsAB > 0 {
+		cfg.maxAcceptedAB = uint16(plan.SlotsAB)
+	}
+	if plan.SlotsBC > 0 {
+		cfg.maxAcceptedBC = uint16(plan.SlotsBC)
 	}
 	cl, err := c08NewCluster(t, cfg)
 	if cl != nil {
@@ -1791,7 +1844,7 @@ func c08RunCase(t *testing.T, plan *c08Plan) *c08Result {
 	}
 
 	r := &c08Run{
-		t: t, tb: tb, plan: plan, cl: cl,
+		t: t, tb: tb, plan: plan, cl: cl, notifier: &c08Notifier{},
 		tap: c08NewTap(cl.ab.chanID, cl.bc.chanID, plan.Cuts),
 		deadline: time.Duration(
 			vstats.EnvInt("VERIF_C08_DEADLINE_S", 90),
@@ -1891,6 +1944,15 @@ func c08RunCase(t *testing.T, plan *c08Plan) *c08Result {
 	}
 	if plan.Burst {
 		lab = append(lab, "burst_template")
+	}
+	if plan.SlotsAB+plan.SlotsBC > 0 {
+		lab = append(lab, "slots_template")
+	}
+	if n := r.notifier.count(); n > 0 {
+		lab = append(lab, "outgoing_link_refused_add")
+		if len(r.restartHits)+r.flaps > 0 {
+			lab = append(lab, "outgoing_link_refused_add+restart_or_flap")
+		}
 	}
 	if r.shiftExposed {
 		lab = append(lab, "fwdpkg_partially_acked_at_restart")
